@@ -105,6 +105,11 @@ CHECKS = {
    text="Unentangled value = max over all pairs of answer functions of lambda_max (all entries symbolic); every unentangled strategy is a feasible point of the real NPA-with-referee program with its own value (unentangled <= NPA_k), "
         "NPA constraints imply the non-signalling assemblage conditions and nonsignaling_value's program is the textbook assemblage program (NPA_k <= NS); hedging and cloning primal / dual programs equal the textbook programs and the dual's embedding "
         "is the adjoint of the primal's partial trace (so they are a dual pair), real and complex instances, 1 and 2 repetitions."),
+ "C15": dict(engine="symnp", category="other", design_ref="DESIGN.md §3 C15", technique=E1 + "; all LAPACK kernels uninterpreted; path exploration of the is_separable cascade; concrete-instance replays for the branches beyond the symbolic fragment",
+   note=NOTE_E1 + KERN + "; beyond the spectrum sort of is_separable (argsort / orth / SDP) only a stated deterministic family of concrete product mixtures is run through the real code (labelled concrete-instance in the evidence)",
+   text="is_ppt / is_npt verdict = 'every value of the eigenvalue kernel on the oracle's own partial transpose is >= -tol' for either party, dims 2x2..3x2 (3x3, 2x4 thorough), dim as list / int / omitted, tol symbolic; "
+        "in_separable_ball = the Gurvits-Barnum trace / Frobenius test; has_symmetric_extension shortcut branches and two-qubit closed form; is_separable: total dimension <= 6 equals the PPT test, a partial transpose negative by a margin gives False on "
+        "every path, symbolic product mixtures never raise up to the spectrum sort; the SDP branch of has_symmetric_extension (rejects every state) and the Breuer-Hall block (TypeError) are recorded known findings."),
 }
 NOT_BUILT = "check not built yet in this round (planned per DESIGN.md §3); nothing is claimed"
 NA = {f"C{i:02d}": NOT_BUILT for i in range(1, 21) if f"C{i:02d}" not in CHECKS}
@@ -115,7 +120,7 @@ ENGINES = [
  {"name": "sdpcap", "path": "sdpcap/", "serves_properties": [k for k, v in CHECKS.items() if "sdpcap" in v["engine"]],
   "kind_free_text": "E2: capture of the cvxpy/picos program the real code builds, exact affine extraction on a basis, z3 obligations T1/T2/T3"},
 ]
-NOTES = ("fix: commits in /repo: cb7d15f, 497f2e2 (C01), 03de9a5, c7b010c (C06), b47dfd5 (C10), 897b7c3 (C11), cb4fb7c (C12), 73fd273, 0d7cc36 (C20), fbaafd8 (C13), c89db21, 7c812ba (C14), 4335272, b792854, 75fd335 (C16), b37e413, 80f67c2, 99d5db9 (C18), c68bb85 (C19), 1c22b69 (C07), 18fb193, 1b8446a, 5eb1a03, 61eccb4 (C17), cfb1318, 94fc814, 4788479, bd219c5, 4a6829e (C09); see known_findings.json 'fixed'. "
+NOTES = ("fix: commits in /repo: cb7d15f, 497f2e2 (C01), 03de9a5, c7b010c (C06), b47dfd5 (C10), 897b7c3 (C11), cb4fb7c (C12), 73fd273, 0d7cc36 (C20), fbaafd8 (C13), c89db21, 7c812ba (C14), 4335272, b792854, 75fd335 (C16), b37e413, 80f67c2, 99d5db9 (C18), c68bb85 (C19), 1c22b69 (C07), 18fb193, 1b8446a, 5eb1a03, 61eccb4 (C17), cfb1318, 94fc814, 4788479, bd219c5, 4a6829e (C09), a6b6722, 30dff47, e89aa03, d3d1cf2, 5983140 + eigvals fix (C15); see known_findings.json 'fixed'. "
          "Exit codes: 0 held / 1 VIOLATION (reproduced on the real code) / 2 harness error.")
 
 checks = []
